@@ -228,6 +228,14 @@ func classifyMisplaced(prev, actual []byte, ks []uint64) string {
 	return "other"
 }
 
+// misplacedClass names the refuting observation "index bytes are not what marking exactly this entry gives".
+func misplacedClass(shift string) string {
+	if shift == "stride-NeedleHeaderSize" {
+		return "tombstone-misplaced"
+	}
+	return "index-bytes-differ"
+}
+
 func diffPositions(a, b []byte) []int {
 	var d []int
 	for i := 0; i < len(a) && i < len(b); i++ {
@@ -418,7 +426,7 @@ func (c *ctx) ecCase(ix *index, full bool) {
 			if p > 0 {
 				pos = "later-entry"
 			}
-			unlisted := r.Violation(c.sig(lib.Sig{"op": "ecx-delete", "class": "tombstone-misplaced", "shift": shift, "via": "DeleteNeedleFromEcx", "key": st.Kind}),
+			unlisted := r.Violation(c.sig(lib.Sig{"op": "ecx-delete", "class": misplacedClass(shift), "shift": shift, "via": "DeleteNeedleFromEcx", "key": st.Kind}),
 				c.detail(ix, map[string]interface{}{"key": k, "entry_index": p, "position": pos, "step": si, "diff_at": diffPositions(got, want),
 					"expected_write_at": p*E + sizeAt, "msg": "raw .ecx bytes after the delete differ from: previous bytes with only the 4 size bytes of this entry set to the tombstone"}))
 			if unlisted {
@@ -547,7 +555,7 @@ func (c *ctx) ecCase(ix *index, full bool) {
 		r.Eval(1)
 		r.Count("rebuild_checks", 1)
 		if !bytes.Equal(got, final) {
-			r.Violation(c.sig(lib.Sig{"op": "ecx-rebuild", "class": "tombstone-misplaced", "shift": classifyMisplaced(orig, got, js), "via": "RebuildEcxFile"}),
+			r.Violation(c.sig(lib.Sig{"op": "ecx-rebuild", "class": misplacedClass(classifyMisplaced(orig, got, js)), "shift": classifyMisplaced(orig, got, js), "via": "RebuildEcxFile"}),
 				c.detail(ix, map[string]interface{}{"journal_entries": len(js), "diff_at": diffPositions(got, final), "msg": ".ecx rebuilt from the unmarked .ecx plus the journal differs from the .ecx the deletions should have produced"}))
 		}
 		if _, err := os.Stat(b2 + ".ecj"); err == nil && len(js) > 0 {
@@ -690,7 +698,7 @@ func (c *ctx) sortedMapCase(ix *index) {
 				if p >= 0 {
 					shift = classifyMisplaced(sdxPrev, gotSdx, []uint64{k})
 				}
-				if r.Violation(c.sig(lib.Sig{"op": "sorted-map-delete", "class": "tombstone-misplaced", "shift": shift, "via": "SortedFileNeedleMap.Delete", "key": kind}),
+				if r.Violation(c.sig(lib.Sig{"op": "sorted-map-delete", "class": misplacedClass(shift), "shift": shift, "via": "SortedFileNeedleMap.Delete", "key": kind}),
 					c.detail(ix, map[string]interface{}{"key": k, "entry_index": p, "diff_at": diffPositions(gotSdx, wantSdx)})) {
 					stop = true
 				} else {
